@@ -75,7 +75,9 @@ pub fn check(run: &CellRun) -> Vec<(String, String)> {
         let d = world::diff(&run.before[snap_idx], &run.after[snap_idx], false);
         for (kind, rel) in d {
             let is_first_copy = m.first == Some(lvl) && run.copies[lvl].as_ref().map(|c| c.0 == rel).unwrap_or(false);
-            if kind == "atime" && is_first_copy {
+            // (with a checker configured every copy is read for the comparison)
+            let is_copy = run.copies[lvl].as_ref().map(|c| c.0 == rel).unwrap_or(false);
+            if kind == "atime" && (is_first_copy || (cell.checker != 0 && is_copy)) {
                 continue;
             }
             bad.push((
@@ -192,6 +194,29 @@ pub fn cells() -> Vec<Cell> {
                 for a in [crate::ops::Act::Accept, crate::ops::Act::Promote, crate::ops::Act::Replace] {
                     ops.push((MOp::Gou(a), pop));
                 }
+            }
+            // the hit actions with a (byte-equality, counting) checker configured: populate then yields the value of the
+            // first copy (comparison passes), another value (mismatch: the call fails, nothing changes) or NotFound
+            // (comparison skipped); the judge's verdict applies all the same
+            let mut checked: Vec<(MOp, u8)> = Vec::new();
+            for pop in [1u8, 2, 3] {
+                checked.push((MOp::Ensure, pop));
+                for a in [crate::ops::Act::Accept, crate::ops::Act::Promote, crate::ops::Act::Replace] {
+                    checked.push((MOp::Gou(a), pop));
+                }
+            }
+            for (op, pop) in checked {
+                out.push(Cell {
+                    writer: w,
+                    readers: r.clone(),
+                    contents: contents.clone(),
+                    op,
+                    pop,
+                    checker: 1,
+                    umask: 0o022,
+                    auto_sync: true,
+                    size: crate::world::Size::One,
+                });
             }
             for (op, pop) in ops {
                 for size in matrix_sizes() {
@@ -350,7 +375,7 @@ pub fn run(_tier: Tier, shard: Shard, rep: &mut Report) {
     rep.rule = "full matrix: write side {none, plain, sharded(3)} x read-only list {[], [p], [s], [p,p], [p,s], [s,p], [s,s]} x \
         per-level content {nothing, A, B} (sharded levels: value in the primary or the secondary shard) x operation {get, touch, \
         set, put, set_temp_file, put_temp_file, ensure, get_or_update x {Accept, Promote, Replace}} x populate {value, NotFound, other error}, no \
-        checker (and, for every lookup cell with a later copy, the first copy's open failing with EACCES/EIO/EMFILE: the lookup must fail \
+        checker, and the hit actions again with a byte-equality checker and populate {value of the first copy, other value, NotFound} (and, for every lookup cell with a later copy, the first copy's open failing with EACCES/EIO/EMFILE: the lookup must fail \
         rather than resolve further down the stack); oracle = stack-resolution reference model on result, judge arguments, populate arguments, per-level before/after \
         snapshots, trace (no level after the first hit is touched), temp-file and source residue. Plus: get_or_update with Replace racing with another writer of the same key (all \
         schedules with <= 2 preemptions): it must return the value it populated. Non-trivial = >= 2 levels and at least one copy present."
